@@ -1,5 +1,435 @@
 package main
 
-func (w *World) genLemmaUnit(us *UnitSpec) *GenUnit {
-	return &GenUnit{Name: us.Pkg + ".lemma." + us.Sel, Err: "lemma units not implemented yet"}
+import (
+	"fmt"
+	"go/ast"
+	"go/token"
+	"sort"
+	"strings"
+
+	"golang.org/x/tools/go/ssa"
+)
+
+// Expansion is the symbolic summary of one call of a real function, obtained by executing its SSA.
+type Expansion struct {
+	Fn    *ssa.Function
+	Vals  []SV
+	Final *BState
+}
+
+func (ex *Expansion) local(name string, k int) SV {
+	var cells []*ssa.Alloc
+	for _, b := range ex.Fn.Blocks {
+		for _, ins := range b.Instrs {
+			if a, ok := ins.(*ssa.Alloc); ok && a.Comment == name {
+				cells = append(cells, a)
+			}
+		}
+	}
+	sort.Slice(cells, func(i, j int) bool { return cells[i].Pos() < cells[j].Pos() })
+	if k < 1 || k > len(cells) {
+		panic(fmt.Sprintf("spec: exit(): %s has %d variables named %s", ex.Fn.Name(), len(cells), name))
+	}
+	v, ok := ex.Final.cells[cells[k-1]]
+	if !ok {
+		panic(fmt.Sprintf("spec: exit(): variable %s #%d of %s is not reachable in this case", name, k, ex.Fn.Name()))
+	}
+	return v
+}
+
+func expansionKey(fn *ssa.Function, args []SV) string {
+	var sb strings.Builder
+	sb.WriteString(fn.String())
+	for _, a := range args {
+		var ls []*Term
+		leaves(a, &ls)
+		for _, l := range ls {
+			fmt.Fprintf(&sb, " %d", l.id)
+		}
+	}
+	return sb.String()
+}
+
+// specCall: a real function called from a contract expression.
+func (e *Exec) specCall(env *SpecEnv, fn *ssa.Function, args []SV) SV {
+	if !env.expandFn {
+		// by contract (requires are not re-checked here: the expression is a specification, not code)
+		ct := e.contractOf(fn)
+		if ct == nil {
+			panic("spec: call of " + fn.Name() + " which has no contract")
+		}
+		cf := &Frame{fn: fn, regs: map[ssa.Value]SV{}, contractOnly: true}
+		for i, p := range fn.Params {
+			cf.regs[p] = args[i]
+		}
+		results := fn.Signature.Results()
+		var rs []SV
+		for i := 0; i < results.Len(); i++ {
+			rs = append(rs, e.freshSV(results.At(i).Type(), "spec."+fn.Name(), tTrue, false))
+		}
+		post := &SpecEnv{e: e, fr: cf, st: env.st, bound: map[string]SV{}, cs: e.cs, pkg: ct.Pkg, oldSt: env.st, oldFr: cf}
+		for k, v := range rs {
+			post.bound[fmt.Sprintf("result%d", k)] = v
+		}
+		if len(rs) > 0 {
+			post.bound["result"] = rs[0]
+		}
+		for _, en := range append(append([]Clause{}, ct.Ensures...), ct.Defines...) {
+			e.assume(scal(post.eval(en.Expr)))
+		}
+		if len(rs) == 1 {
+			return rs[0]
+		}
+		return &TupleV{Elems: rs}
+	}
+	ex := e.expand(env, fn, args)
+	if len(ex.Vals) == 1 {
+		return ex.Vals[0]
+	}
+	return &TupleV{Elems: ex.Vals}
+}
+
+// expand executes the SSA of fn on args (memoised per argument terms). Obligations inside the body are proved in the
+// function's own unit and are only assumed here; the callee's requires are obligations of the lemma. The summary
+// describes the terminating execution (some return is reached) — sound together with the function's termination.
+func (e *Exec) expand(env *SpecEnv, fn *ssa.Function, args []SV) *Expansion {
+	key := expansionKey(fn, args)
+	if e.touched != nil {
+		e.touched[key] = true
+	}
+	if ex, ok := e.expansions[key]; ok {
+		return ex
+	}
+	segLo := len(e.assumes)
+	defer func() { e.segments[key] = [2]int{segLo, len(e.assumes)} }()
+	if e.segments == nil {
+		e.segments = map[string][2]int{}
+	}
+	if e.expansions == nil {
+		e.expansions = map[string]*Expansion{}
+	}
+	if ct := e.contractOf(fn); ct != nil {
+		cf := &Frame{fn: fn, regs: map[ssa.Value]SV{}, contractOnly: true}
+		for i, p := range fn.Params {
+			cf.regs[p] = args[i]
+		}
+		renv := &SpecEnv{e: e, fr: cf, st: env.st, bound: map[string]SV{}, cs: e.cs, pkg: ct.Pkg}
+		for i, r := range ct.Requires {
+			e.obligeNamed(env.st, fmt.Sprintf("expand.%s.%s", selectorOf(fn), clauseLabel(r, "requires", i)), fn.Pos(), scal(renv.evalGoal(r.Expr)))
+		}
+	}
+	e.quiet++
+	saved := e.lastFrame
+	vals, out := e.run(fn, env.st.clone(), args, nil, 1)
+	e.lastFrame = saved
+	e.quiet--
+	if vals == nil {
+		panic("spec: expansion of " + fn.Name() + " has no return")
+	}
+	e.assume(out.reach)
+	ex := &Expansion{Fn: fn, Vals: vals, Final: out}
+	e.expansions[key] = ex
+	e.note("lemma expands the SSA of " + fn.String() + " (termination of its loops and recursion is assumed: values are finite trees)")
+	return ex
+}
+
+func (env *SpecEnv) expansionOf(x ast.Expr) *Expansion {
+	call, ok := x.(*ast.CallExpr)
+	if !ok {
+		panic("spec: exit() needs a call expression")
+	}
+	sub := *env
+	sub.expandFn = true
+	sub.eval(call) // make sure it is expanded
+	// recompute the key
+	var fn *ssa.Function
+	var args []SV
+	switch f := call.Fun.(type) {
+	case *ast.SelectorExpr:
+		recv := env.eval(f.X)
+		args = append(args, recv)
+		for _, ex := range env.e.expansions {
+			if ex.Fn.Name() == f.Sel.Name {
+				fn = ex.Fn
+			}
+		}
+	case *ast.Ident:
+		for _, ex := range env.e.expansions {
+			if ex.Fn.Name() == f.Name {
+				fn = ex.Fn
+			}
+		}
+	}
+	if fn == nil {
+		panic("spec: exit(): no expansion found")
+	}
+	for _, a := range call.Args {
+		args = append(args, env.eval(a))
+	}
+	for i := range args {
+		if i < len(fn.Params) {
+			args[i] = retype(args[i], fn.Params[i].Type())
+		}
+	}
+	ex := env.e.expansions[expansionKey(fn, args)]
+	if ex == nil {
+		panic("spec: exit(): expansion not found for these arguments")
+	}
+	return ex
+}
+
+// genLemmaUnits: a lemma is a relational obligation over calls of real functions. Parameters are arbitrary (sane)
+// values; requires are assumed; each ensures (per case) is one obligation. `use L(args)` assumes an instance of
+// lemma L (requires ==> ensures) with real calls taken by contract; instances of the lemma itself are the induction
+// hypothesis and must be applied to elements of the parameters (structurally smaller values).
+// Every case is generated on its own: a case of the form `p.F == <int literal>` is applied by substitution, so the
+// expansion of the real function folds to the arms that case can reach.
+func (w *World) genLemmaUnits(us *UnitSpec) []*GenUnit {
+	short := us.Pkg
+	if i := strings.LastIndex(short, "/"); i >= 0 {
+		short = short[i+1:]
+	}
+	base := short + ".lemma." + us.Sel
+	lm := w.CS.Lemmas[us.Sel]
+	if lm == nil {
+		return []*GenUnit{{Name: base, Err: "no lemma " + us.Sel + " in the contract files"}}
+	}
+	cases := lm.Cases
+	if len(cases) == 0 {
+		cases = []Clause{{Name: "", Expr: nil}}
+	}
+	var out []*GenUnit
+	for _, c := range cases {
+		out = append(out, w.genLemmaCase(lm, base, c))
+	}
+	return out
+}
+
+// caseSubst recognises `param.Field == literal`.
+func caseSubst(c Clause) (param, field string, lit *Term, ok bool) {
+	be, isBin := c.Expr.(*ast.BinaryExpr)
+	if !isBin || be.Op != token.EQL {
+		return
+	}
+	se, isSel := be.X.(*ast.SelectorExpr)
+	if !isSel {
+		return
+	}
+	id, isId := se.X.(*ast.Ident)
+	bl, isLit := be.Y.(*ast.BasicLit)
+	if !isId || !isLit || bl.Kind != token.INT {
+		return
+	}
+	return id.Name, se.Sel.Name, bigLit(bl.Value), true
+}
+
+func (w *World) genLemmaCase(lm *Lemma, base string, c Clause) (g *GenUnit) {
+	name := base
+	suffix := ""
+	if c.Expr != nil {
+		suffix = "[" + c.Name + "]"
+	}
+	g = &GenUnit{Name: name + suffix}
+	e := newExec(base, w.Prog.Fset)
+	g.E = e
+	e.cs = w.CS
+	e.w = w
+	e.pkg = lm.Pkg
+	e.contracts = map[*ssa.Function]*FuncContract{}
+	defer func() {
+		if r := recover(); r != nil {
+			g.Err = fmt.Sprint(r)
+		}
+	}()
+	resetRunGlobals()
+	st := newState()
+	e.frontier(st)
+	bound := map[string]SV{}
+	sp, sf, slit, subst := "", "", (*Term)(nil), false
+	if c.Expr != nil {
+		sp, sf, slit, subst = caseSubst(c)
+	}
+	for i, p := range lm.Params {
+		t, err := resolveTypeString(lm.Pkg, lm.PTypes[i])
+		if err != nil {
+			panic("lemma " + lm.Name + ": " + err.Error())
+		}
+		sv := e.freshSV(t, p, tTrue, true)
+		if subst && p == sp {
+			stt := structOf(t)
+			done := false
+			if sv2, ok := sv.(*StructV); ok && stt != nil {
+				for fi := 0; fi < stt.NumFields(); fi++ {
+					if stt.Field(fi).Name() == sf {
+						if sc, ok := sv2.Fields[fi].(*Scalar); ok && sc.T.Sort == SInt {
+							sv2.Fields[fi] = &Scalar{T: slit, Ty: sc.Ty}
+							done = true
+						}
+					}
+				}
+			}
+			if !done {
+				subst = false
+			}
+		}
+		e.saneInput(st, t, sv, tTrue)
+		bound[p] = sv
+		e.inputSVs = append(e.inputSVs, NamedInput{p, t, sv})
+	}
+	g.ClassBound = bound
+	fr0 := &Frame{regs: map[ssa.Value]SV{}}
+	e.entry = st.clone()
+	e.entryFrame = fr0
+	mkEnv := func(expand bool) *SpecEnv {
+		b := map[string]SV{}
+		for k, v := range bound {
+			b[k] = v
+		}
+		return &SpecEnv{e: e, fr: fr0, st: st, bound: b, cs: w.CS, pkg: lm.Pkg, expandFn: expand}
+	}
+	for _, r := range lm.Requires {
+		e.assume(scal(mkEnv(false).eval(r.Expr)))
+	}
+	cond := tTrue
+	if c.Expr != nil && !subst {
+		cond = scal(mkEnv(false).eval(c.Expr))
+	}
+	// goals first: evaluating them expands the real functions and fixes the exit indices the uses refer to
+	type goal struct {
+		label   string
+		t       *Term
+		touched map[string]bool
+	}
+	baseN := len(e.assumes)
+	var goals []goal
+	for i, en := range lm.Ensures {
+		e.touched = map[string]bool{}
+		t := scal(mkEnv(true).evalGoal(en.Expr))
+		goals = append(goals, goal{clauseLabel(en, "ensures", i), t, e.touched})
+	}
+	e.lemmaLocal = e.goalLocal
+	e.goalLocal = nil
+	// use clauses: unlabelled instances serve every case, an instance labelled with a case name only that case;
+	// an instance is given to a goal only if the expansions it talks about (exit indices) are the goal's own
+	type useT struct {
+		t       *Term
+		touched map[string]bool
+		lo, hi  int // assumptions made while building the instance (definitions of by-contract call results)
+	}
+	var uses []useT
+	for _, u := range lm.Uses {
+		if u.Name != "" && u.Name != c.Name {
+			continue
+		}
+		e.touched = map[string]bool{}
+		lo := len(e.assumes)
+		t := w.lemmaInstance(e, lm, mkEnv(true), u)
+		uses = append(uses, useT{t, e.touched, lo, len(e.assumes)})
+	}
+	e.touched = nil
+	subset := func(a, b map[string]bool) bool {
+		for k := range a {
+			if !b[k] {
+				return false
+			}
+		}
+		return true
+	}
+	cs := st.clone()
+	cs.reach = cond
+	for _, gl := range goals {
+		as := append([]*Term{}, e.assumes[:baseN]...)
+		var keys []string
+		for k := range gl.touched {
+			keys = append(keys, k)
+		}
+		sort.Strings(keys)
+		for _, k := range keys {
+			seg := e.segments[k]
+			as = append(as, e.assumes[seg[0]:seg[1]]...)
+		}
+		for _, u := range uses {
+			if subset(u.touched, gl.touched) {
+				as = append(as, e.assumes[u.lo:u.hi]...)
+				as = append(as, u.t)
+			}
+		}
+		as = append(as, e.lemmaLocal...)
+		e.obligeCase(cs, gl.label+suffix, gl.t, as)
+	}
+	g.Canary = tTrue
+	return g
+}
+
+// obligeCase emits an obligation without assuming it afterwards (cases are independent).
+func (e *Exec) obligeCase(st *BState, name string, cond *Term, assumps []*Term) {
+	goal := implies(st.reach, cond)
+	if goal == tTrue {
+		e.trivial = append(e.trivial, e.base+"/"+name)
+		return
+	}
+	e.obls = append(e.obls, &Obligation{Name: e.base + "/" + name, Kind: name, Cond: goal, NAssum: len(e.assumes), Explicit: true, Assumps: assumps})
+}
+
+// lemmaInstance builds (requires ==> ensures) of the lemma named in a use clause, for the given arguments.
+func (w *World) lemmaInstance(e *Exec, cur *Lemma, env *SpecEnv, u Clause) *Term {
+	call, ok := u.Expr.(*ast.CallExpr)
+	if !ok {
+		// a plain fact: only allowed when it is a call of a lemma
+		panic("use clause must be a lemma instance: " + u.Src)
+	}
+	name := call.Fun.(*ast.Ident).Name
+	lm := w.CS.Lemmas[name]
+	if lm == nil {
+		panic("use of unknown lemma " + name)
+	}
+	if len(call.Args) != len(lm.Params) {
+		panic("use " + name + ": wrong number of arguments")
+	}
+	if lm == cur {
+		for _, a := range call.Args {
+			if !isElementOfParam(a, cur) {
+				panic("use " + name + ": the induction hypothesis may only be applied to elements of the lemma's parameters (structurally smaller values): " + u.Src)
+			}
+		}
+	}
+	sub := &SpecEnv{e: e, fr: env.fr, st: env.st, bound: map[string]SV{}, cs: w.CS, pkg: lm.Pkg, expandFn: false, unfold: 1}
+	for i, p := range lm.Params {
+		sub.bound[p] = env.eval(call.Args[i])
+	}
+	var req, ens []*Term
+	for _, r := range lm.Requires {
+		req = append(req, scal(sub.eval(r.Expr)))
+	}
+	for _, en := range lm.Ensures {
+		ens = append(ens, scal(sub.eval(en.Expr)))
+	}
+	return implies(and(req...), and(ens...))
+}
+
+// isElementOfParam: X.List[i] / X.Struct[i] / X.Tuple[i] (or a slice parameter's element s[i]) for a parameter X.
+func isElementOfParam(x ast.Expr, lm *Lemma) bool {
+	ix, ok := x.(*ast.IndexExpr)
+	if !ok {
+		return false
+	}
+	isParam := func(e ast.Expr) bool {
+		id, ok := e.(*ast.Ident)
+		if !ok {
+			return false
+		}
+		for _, p := range lm.Params {
+			if p == id.Name {
+				return true
+			}
+		}
+		return false
+	}
+	switch b := ix.X.(type) {
+	case *ast.SelectorExpr:
+		return isParam(b.X) && (b.Sel.Name == "List" || b.Sel.Name == "Struct" || b.Sel.Name == "Tuple")
+	case *ast.Ident:
+		return isParam(b)
+	}
+	return false
 }
